@@ -478,6 +478,13 @@ fn cases(tier: &str) -> Vec<String> {
             out.push(format!("{sh} {limit} {b2} t2m"));
         }
     }
+    // a limit above the maximum is clamped (no `stacker`): behaves like the default
+    for sh in shapes.iter().filter(|s| !s.contains(',') && s.ends_with("000")) {
+        for th in ["main", "t2m"] {
+            out.push(format!("{sh} 100000 0 {th}"));
+        }
+        out.push(format!("{sh} 501 170 t2m"));
+    }
     // super chains and recursive loops: below, at and above the limit
     for &limit in &limits {
         if thorough && limit > 10 && limit % 5 != 0 && limit != 500 {
